@@ -195,6 +195,12 @@ class BuiltinMixin:
             return [(st, r)]
         if lx.kind == "dict":
             raise OutOfSubset("list(dict)", node)
+        if lx.kind is None and lx.sort == "V":
+            # statically unknown kind: must be a list/tuple here (obligation), then a fresh copy
+            g = f"(or (k_list {lx.t}) (k_tuple {lx.t}))"
+            self.obl("kind", node, st, g, detail="argument of list() is a list or tuple")
+            st.assume(g)
+            return [(st, Val(f"(v_list (seqof {lx.t}))", kind="list", fresh=TRUE))]
         raise OutOfSubset(f"list() of {lx.kind}", node)
 
     def b_tuple(self, st, args, kwargs, node):
@@ -228,6 +234,7 @@ class BuiltinMixin:
             st.assume(f"(= (seq.len (sitems {r.t})) (seq.len {sq}))")
             st.assume(f"(forall (({y} V)) (! (= (seq_has_pyeq (sitems {r.t}) {y} 0) (and (k_str {y}) (dhas {asV(lx)} (sval {y})))) :pattern ((seq_has_pyeq (sitems {r.t}) {y} 0))))")
             self.trusted_used.add("set(dict) has the dict's keys as members (library axiom)")
+            self.set_src[r.t] = lx
             return [(st, r)]
         if lx.kind not in ("list", "tuple", "set"):
             raise OutOfSubset(f"set() of {lx.kind}", node)
@@ -241,7 +248,10 @@ class BuiltinMixin:
         st.assume(f"(forall (({y} V)) (! (= (seq_has_pyeq (sitems {r.t}) {y} 0) (seq_has_pyeq {sq} {y} 0)) :pattern ((seq_has_pyeq (sitems {r.t}) {y} 0))))")
         st.assume(Eq(f"(= (seq.len (sitems {r.t})) 0)", f"(= (seq.len {sq}) 0)"))
         self.trusted_used.add("set(xs): same members up to ==; len(set xs) = len xs iff xs has no two == elements; TypeError iff an element is a list/dict/set (library axiom)")
-        return self.raising(st, r, [(TypeError, f"(has_unhashable {sq} 0)")], node)
+        self.set_src[r.t] = lx
+        u = fresh_name("u")
+        unh = f"(exists (({u} Int)) (and (<= 0 {u}) (< {u} (seq.len {sq})) (or (k_list (seq.nth {sq} {u})) (k_dict (seq.nth {sq} {u})) (k_set (seq.nth {sq} {u})))))"
+        return self.raising(st, r, [(TypeError, unh)], node)
 
     def b_dict(self, st, args, kwargs, node):
         if not args and not kwargs:
